@@ -31,6 +31,10 @@ type c18Case struct {
 	// with Addrs > 0, VLen > 0 makes the addresses short ones whose local part has VLen characters
 	NVals int `json:"nvals,omitempty"`
 	VLen  int `json:"vlen,omitempty"`
+	// BLen > 0 (kind "boundary"): a multipart message of shape BShape (0 alternative, 1 body+embed, 2 body+attachment,
+	// 3 all three levels) with a caller-fixed boundary of BLen characters: go-mail's own multipart header lines
+	BLen   int `json:"blen,omitempty"`
+	BShape int `json:"bshape,omitempty"`
 }
 
 // c18ShortAddr is the i-th short address with a local part of l characters.
@@ -207,6 +211,37 @@ func c18Exec(r *vf.Run, k c18Case) []finding {
 				}
 				out = append(out, finding{"decode/" + f.key + "/" + shape, f.what})
 			}
+		}
+		return out
+	}
+	if k.Kind == "boundary" {
+		sp := mb.Msg{Boundary: repeatTo("boundary-0123456789-ABCDEFGHIJKLMNOPQRSTUVWXYZ-", k.BLen), Parts: []mb.Part{{Type: "text/plain", Content: []byte("body\r\n")}}}
+		if k.BShape == 0 || k.BShape == 3 {
+			sp.Parts = append(sp.Parts, mb.Part{Type: "text/html", Content: []byte("<p>body</p>\r\n")})
+		}
+		if k.BShape == 1 || k.BShape == 3 {
+			sp.Embeds = []mb.File{{Name: "e.png", Content: c18Bin(40)}}
+		}
+		if k.BShape >= 2 {
+			sp.Attach = []mb.File{{Name: "a.bin", Content: c18Bin(40)}}
+		}
+		m, err := mb.Build(sp, nil)
+		if err != nil {
+			r.HarnessError("C18 build: %v", err)
+			return nil
+		}
+		var buf bytes.Buffer
+		pan, pw := vf.Guard(func() { _, err = m.WriteTo(&buf) })
+		if pan {
+			return []finding{{"panic/" + vf.PanicSite(pw), firstLine(pw)}}
+		}
+		if err != nil {
+			return []finding{{"render-error", err.Error()}}
+		}
+		e := mimeread.Parse(buf.Bytes())
+		c18CheckEntity(e, add, "message")
+		for _, f := range checkRendered(sp, buf.Bytes(), e) {
+			out = append(out, finding{"decode/" + f.key + "/fixed-boundary", f.what})
 		}
 		return out
 	}
@@ -399,6 +434,12 @@ func c18Cases(thorough bool) []c18Case {
 			}
 		}
 	}
+	// go-mail's own multipart header lines with a caller-fixed boundary of every length 1..70, four shapes
+	for bl := 1; bl <= 70; bl++ {
+		for sh := 0; sh < 4; sh++ {
+			cs = append(cs, c18Case{Kind: "boundary", BLen: bl, BShape: sh})
+		}
+	}
 	// bodies: every length, uniform chunk sizes, all cut sets up to 2 (thorough 3) cuts
 	for _, b64 := range []bool{false, true} {
 		maxN := 200
@@ -474,7 +515,7 @@ func init() {
 	vf.Register(&vf.Check{
 		ID: "C18", Title: "generated output obeys Internet-message line discipline",
 		Run: func(r *vf.Run) {
-			r.SetRule("(a) header folding: generic headers with names of 2/12/33 characters and Subject, values of 2 words with every length pair 0..80 and 3 words over 27 lengths up to 300, with double/leading/trailing blanks, TAB, to-be-encoded words; To lists of 1..6 long addresses; one header set with 1..60 separate values of 1..12 characters each, To lists of 1..60 short addresses; (b) QP text bodies and base64 attachments of every length 0..200, 1000 and 4096, whose producers split their output at every set of <=2 (thorough <=3) cut positions, in uniform chunks of every size, and in all 2^(n-1) splittings of 13 nine-byte blocks; an independent line scanner checks CRLF-only, body lines <=76, header lines <=78 unless unbreakable, unfolded value = value set, decoded body = content; distinct by case tuple")
+			r.SetRule("(a) header folding: generic headers with names of 2/12/33 characters and Subject, values of 2 words with every length pair 0..80 and 3 words over 27 lengths up to 300, with double/leading/trailing blanks, TAB, to-be-encoded words; To lists of 1..6 long addresses; one header set with 1..60 separate values of 1..12 characters each, To lists of 1..60 short addresses; multipart messages (4 shapes) with a caller-fixed boundary of every length 1..70 (go-mail's own Content-Type lines); (b) QP text bodies and base64 attachments of every length 0..200, 1000 and 4096, whose producers split their output at every set of <=2 (thorough <=3) cut positions, in uniform chunks of every size, and in all 2^(n-1) splittings of 13 nine-byte blocks; an independent line scanner checks CRLF-only, body lines <=76, header lines <=78 unless unbreakable, unfolded value = value set, decoded body = content; distinct by case tuple")
 			r.Assume("trailing blanks of a header value are not significant", "a header line may exceed 78 characters only if the part after the field name / folding blank contains no blank")
 			cases := c18Cases(r.Thorough)
 			r.Extra("cases", len(cases))
